@@ -31,6 +31,9 @@ VOCAB = [
     ("pkg.sub", "thing", "nonstd"), ("verif_sink", "eval", "nonstd"), ("verif_sink", "load", "nonstd"),
     ("torch", "load", "nonstd"), ("torch.storage", "_load_from_bytes", "nonstd"),
     ("numpy.testing._private.utils", "runstring", "nonstd"), ("numpy.core.multiarray", "_reconstruct", "nonstd"),
+    ("torch.serialization", "load", "nonstd"), ("torch.jit", "load", "nonstd"), ("operator.impl", "getitem", "nonstd"),
+    ("time", "time", "benign_std"), ("itertools", "count", "benign_std"), ("marshal", "loads", "benign_std"),
+    ("_io", "BytesIO", "benign_std"), ("numpy.testing._private.utils.x", "runstring", "nonstd"),
 ]
 SECOND = [("collections", "OrderedDict"), ("verif_sink", "other"), ("builtins", "getattr"), ("os", "getpid")]
 
